@@ -64,6 +64,12 @@ def instances(tier):
         out.append(('line2', g2, dict(fam='simple_n', T=2, ne=True, width=1, **NOSYM), [('match', 2), ('widen', 2)], {}))
         out.append(('oneway3', g3, dict(fam='simple', T=3, ne=False, sym_maxdist=True, sym_init=False, sym_minprob=False),
                     [('match', 3), ('continue', 1, 1)], {}))
+        # the same histories with the logger at DEBUG (stopped candidates are then filed in the lattice and must stay inert)
+        gap = {"A": ["B"], "B": [], "C": ["D"], "D": []}
+        for fam in ('simple', 'dist'):
+            out.append(('gap2', gap, dict(fam=fam, T=3, ne=False, **MD), [('loglevel', 'DEBUG'), ('match', 3), ('continue', 1, 1), ('extend', 3)], {}))
+            out.append(('gap2', gap, dict(fam=fam, T=3, ne=False, **MD), [('match', 3), ('continue', 2, 1), ('extend', 3)], {}))
+            out.append(('line2', g2, dict(fam=fam, T=3, ne=False, width=1, **MD), [('loglevel', 'DEBUG'), ('match', 3), ('widen', 2)], {}))
     else:
         gs = [x for x in library(3, named=('fork', 'oneway4')) if len([1 for u in x[1] for v in x[1][u]]) <= 4]
         for name, g in gs:
